@@ -152,6 +152,48 @@ def perturbed_cases(draw):
     return {"t": gen.texel_str(t), "input": inp, "map": m2, "ops": ops, "prefix": "SUPER_"}
 
 
+def body_cli(case, rec):
+    """the same gap oracle on the files the CLI writes (all assembly files together, incl. the merged all_haplotigs of Primary mode)"""
+    classes = {"cli"}
+    d = remap.scratch_dir("vf-c07-")
+    try:
+        inp = d / "input.agp"
+        inp.write_text(remap.input_text(case, "agp"))
+        mp = d / "map.agp"
+        mp.write_text(remap.map_agp_text(case))
+        out = d / "out" / "x.1.agp"
+        out.parent.mkdir()
+        res = remap.run_cli_inprocess(["-a", inp, "-p", mp, "-o", out, "-c", case.get("prefix", "SUPER_")])
+        if res.exit_code != 0:
+            rec.note(case, False, classes | {"error"})
+            return
+        outs = []
+        for f in sorted(out.parent.iterdir()):
+            if f.name.endswith(".agp"):
+                if "all_haplotigs" in f.name:
+                    classes.add("all_haplotigs_file")
+                outs.extend([n, [r[:5] if r[0] == "F" else r for r in rows]] for n, rows in ref.read_agp(f.read_text())[1])
+        try:
+            oracle(case, outs, True, classes)
+        finally:
+            rec.note(case, bool(classes & {"junction_between_non_neighbours", "all_haplotigs_file"}), classes)
+    finally:
+        remap.rmtree(d)
+
+
+@st.composite
+def cli_cases(draw):
+    if draw(st.booleans()):
+        c = draw(gen.tagged_case(two_haplotypes=True, primary_mode=True, max_scaffolds=5, max_contigs=5, piece_tag_weight=8))
+        # haplotype-prefixed FASTA-shaped inputs: vary the gap types as well
+        for _n, rows in c["input"]:
+            for r in rows:
+                if r[0] == "G" and draw(st.integers(0, 2)) == 0:
+                    r[2] = draw(st.sampled_from(["contig", "centromere"]))
+        return c
+    return draw(model_cases())
+
+
 @st.composite
 def partial_cases(draw):
     """
@@ -184,6 +226,8 @@ SUBS = [
     Sub("perturbed", kind="hyp", strategy=perturbed_cases, body=body_perturbed,
         budget={"quick": 8000, "thorough": 100000},
         desc="perturbed maps that complete, first sentence only"),
+    Sub("cli", kind="hyp", strategy=cli_cases, body=body_cli,
+        budget={"quick": 320, "thorough": 4000}, desc="gap oracle on the AGP files written by the CLI (model maps and Primary-mode maps with merged all_haplotigs file)"),
     Sub("partial", kind="hyp", strategy=partial_cases, body=body_perturbed,
         budget={"quick": 8000, "thorough": 100000},
         desc="baits covering only a middle run of contigs (found/missing patterns inside a scaffold), first sentence only"),
